@@ -22,8 +22,10 @@ def scan_module(row: dict[str, Any]) -> dict[str, Any]:
     own = row["error"]
     mutable_imports: list[str] = []
     for n in tree.body:
-        if isinstance(n, ast.ImportFrom) and n.module and (n.module.startswith("refurb.checks.") or n.level > 0):
-            if n.module == "refurb.checks.common":
+        if isinstance(n, ast.ImportFrom) and n.module and (n.module.startswith("refurb.") or n.level > 0):
+            # any mutable container that lives in another refurb module — the shared helpers
+            # (refurb.checks.common, refurb.types, ...) included — is state several checks could share
+            if n.module == mod.__name__:
                 continue
             for a in n.names:
                 obj = getattr(mod, a.asname or a.name, None)
